@@ -128,8 +128,36 @@ func imgHash(img *image.Gray, w, h int) string {
 	return ms.String()
 }
 
+// boundedSolid: the solid seen through explicit Rasterizer.Bounds (same Contains, other Min/Max).
+type boundedSolid struct {
+	model2d.Solid
+	b *model2d.Rect
+}
+
+func (b *boundedSolid) Min() model2d.Coord { return b.b.MinVal }
+func (b *boundedSolid) Max() model2d.Coord { return b.b.MaxVal }
+
 func emitRast(c *hlib.Ctx, s model2d.Solid, scale float64, ss int, family string) {
-	g := newRastGrid(s, scale, ss)
+	var bounds *model2d.Rect
+	gridSolid := s
+	if c.Rng.Intn(4) == 0 {
+		// explicit Bounds (dyadic: crop on one side, pad on the other): the image geometry comes from
+		// Rasterizer.Bounds, containment from the solid
+		d := s.Max().Sub(s.Min())
+		q := func(x float64) float64 { return math.Round(x*8) / 8 }
+		bounds = &model2d.Rect{
+			MinVal: model2d.XY(s.Min().X+q(d.X*0.3*c.Rng.Float64()), s.Min().Y-q(d.Y*0.3*c.Rng.Float64())),
+			MaxVal: model2d.XY(s.Max().X+q(d.X*0.3*c.Rng.Float64()), s.Max().Y-q(d.Y*0.3*c.Rng.Float64())),
+		}
+		if bounds.MaxVal.X <= bounds.MinVal.X || bounds.MaxVal.Y <= bounds.MinVal.Y {
+			bounds = nil
+		} else {
+			gridSolid = &boundedSolid{s, bounds}
+			family += "+bounds"
+			c.Stat("c12.rast.solids_with_explicit_bounds", 1)
+		}
+	}
+	g := newRastGrid(gridSolid, scale, ss)
 	if g.w <= 0 || g.h <= 0 || g.w*g.h > 20000 {
 		return
 	}
@@ -149,6 +177,9 @@ func emitRast(c *hlib.Ctx, s model2d.Solid, scale float64, ss int, family string
 	c.Stat(fmt.Sprintf("c12.rast.filterSize_%d", g.fs), 1)
 	opBase := fmt.Sprintf("c12 rast %d %d %d %s family=%s scale=%v ss=%d", g.w, g.h, ss*ss, strings.Join(strs, ","), family, scale, ss)
 	r := &model2d.Rasterizer{Scale: scale, Subsamples: ss}
+	if bounds != nil {
+		r.Bounds = bounds
+	}
 	type variant struct {
 		tag string
 		run func() *image.Gray
@@ -198,34 +229,138 @@ func sameImg(a, b *image.Gray) string {
 	return "same"
 }
 
-// emitRastCollider: the library's own filters (RasterizeColliderSolid / RasterizeCollider) against
-// the unfiltered rendering of the same solid.
-func emitRastCollider(c *hlib.Ctx) {
-	n := 3 + c.Rng.Intn(9)
-	pts := make([]model2d.Coord, n)
-	for j := range pts {
-		th := 2 * math.Pi * (float64(j) + 0.3*c.Rng.Float64()) / float64(n)
-		r := 0.4 + 1.6*c.Rng.Float64()
-		pts[j] = model2d.XY(r*math.Cos(th)+0.0137, r*math.Sin(th)-0.0211)
-	}
+// rastDrawing is a random line drawing (collider) of overall radius ~rad model units.
+func rastDrawing(c *hlib.Ctx, rad float64) (model2d.Collider, string, string) {
 	m := model2d.NewMesh()
-	for j := range pts {
-		m.Add(&model2d.Segment{pts[(j+1)%n], pts[j]})
+	var pts []model2d.Coord
+	off := model2d.XY(0.0137*rad, -0.0211*rad)
+	family := []string{"star", "star", "polyline", "strokes", "star+strokes"}[c.Rng.Intn(5)]
+	if family == "star" || family == "star+strokes" {
+		n := 3 + c.Rng.Intn(9)
+		ring := make([]model2d.Coord, n)
+		for j := range ring {
+			th := 2 * math.Pi * (float64(j) + 0.3*c.Rng.Float64()) / float64(n)
+			r := rad * (0.2 + 0.8*c.Rng.Float64())
+			ring[j] = model2d.XY(r*math.Cos(th), r*math.Sin(th)).Add(off)
+		}
+		for j := range ring {
+			m.Add(&model2d.Segment{ring[(j+1)%n], ring[j]})
+		}
+		pts = append(pts, ring...)
 	}
-	coll := model2d.MeshToCollider(m)
-	scale := 5 + 30*c.Rng.Float64()
-	ss := []int{1, 2, 3, 4, 8}[c.Rng.Intn(5)]
-	lw := 0.5 + 3*c.Rng.Float64()
+	if family == "polyline" {
+		// open random walk: end points, where the thick line ends in a round cap
+		n := 3 + c.Rng.Intn(8)
+		p := model2d.XY(rad*(2*c.Rng.Float64()-1), rad*(2*c.Rng.Float64()-1)).Add(off)
+		pts = append(pts, p)
+		for j := 0; j < n; j++ {
+			q := model2d.XY(rad*(2*c.Rng.Float64()-1), rad*(2*c.Rng.Float64()-1)).Add(off)
+			m.Add(&model2d.Segment{p, q})
+			pts = append(pts, q)
+			p = q
+		}
+	}
+	if family == "strokes" || family == "star+strokes" {
+		// separate short strokes (some axis-parallel, some nearly a point): most tiles are far from the collider
+		n := 1 + c.Rng.Intn(6)
+		for j := 0; j < n; j++ {
+			p := model2d.XY(rad*(2*c.Rng.Float64()-1), rad*(2*c.Rng.Float64()-1)).Add(off)
+			l := rad * []float64{0.001, 0.05, 0.2, 0.6}[c.Rng.Intn(4)]
+			var d model2d.Coord
+			switch c.Rng.Intn(4) {
+			case 0:
+				d = model2d.XY(l, 0)
+			case 1:
+				d = model2d.XY(0, l)
+			default:
+				th := 2 * math.Pi * c.Rng.Float64()
+				d = model2d.XY(l*math.Cos(th), l*math.Sin(th))
+			}
+			m.Add(&model2d.Segment{p, p.Add(d)})
+			pts = append(pts, p, p.Add(d))
+		}
+	}
+	return model2d.MeshToCollider(m), family, strings.ReplaceAll(fmt.Sprint(pts), " ", ",")
+}
+
+// emitRastCollider: the library's own filters (RasterizeColliderSolid / RasterizeCollider) against
+// the unfiltered rendering of the same solid.  The scale is log-uniform over 1/16 .. 32 pixels per
+// model unit (half of the cases below one pixel per unit: a large drawing rendered small), the
+// drawing is sized so that the image is 24 .. 140 pixels across, the line is 0.4 .. 7 pixels wide
+// (or the default), the rasteriser optionally has explicit Bounds cropping or padding the drawing.
+func emitRastCollider(c *hlib.Ctx) {
+	var scale float64
+	switch c.Rng.Intn(8) {
+	case 0:
+		scale = 0 // default: 1
+	case 1:
+		scale = []float64{1, 0.5, 0.25, 2, 0.125}[c.Rng.Intn(5)]
+	case 2, 3, 4:
+		scale = math.Exp2(-4 * c.Rng.Float64()) // 1/16 .. 1
+	default:
+		scale = math.Exp2(-1 + 6*c.Rng.Float64()) // 1/2 .. 32
+	}
+	effScale := scale
+	if effScale == 0 {
+		effScale = 1
+	}
+	ss := []int{1, 2, 3, 4, 8, 16}[c.Rng.Intn(6)]
+	maxPx := 140.0
+	if ss >= 8 {
+		maxPx = 60
+	}
+	px := 24 + (maxPx-24)*c.Rng.Float64()
+	rad := px / (2 * effScale)
+	coll, family, ptsStr := rastDrawing(c, rad)
+	lw := 0.4 + 3*c.Rng.Float64()
+	switch c.Rng.Intn(6) {
+	case 0:
+		lw = 0 // default: 1
+	case 1:
+		lw = 3 + 4*c.Rng.Float64()
+	}
+	effLw := lw
+	if effLw == 0 {
+		effLw = model2d.RasterizerDefaultLineWidth
+	}
 	r := &model2d.Rasterizer{Scale: scale, Subsamples: ss, LineWidth: lw}
-	tag := fmt.Sprintf("n=%d scale=%v ss=%d lw=%v pts=%v", n, scale, ss, lw, strings.ReplaceAll(fmt.Sprint(pts), " ", ","))
-	emitCase(c, "c12 same rastcollidersolid "+tag, "corr:c12 same/RasterizeColliderSolid", func() string {
-		return sameImg(r.RasterizeColliderSolid(coll), r.RasterizeSolid(model2d.NewColliderSolid(coll)))
-	})
+	bounds := "none"
+	if c.Rng.Intn(5) == 0 {
+		// explicit Bounds: crop one side, pad the other
+		mn, mx := coll.Min(), coll.Max()
+		d := mx.Sub(mn)
+		r.Bounds = &model2d.Rect{
+			MinVal: mn.Add(d.Scale(0.3 * c.Rng.Float64())),
+			MaxVal: mx.Add(d.Scale(0.2 * c.Rng.Float64())),
+		}
+		bounds = strings.ReplaceAll(fmt.Sprint(*r.Bounds.(*model2d.Rect)), " ", ",")
+	}
+	if scale != 0 && scale < 1 {
+		c.Stat("c12.rast.collider.scale_below_1", 1)
+		if effLw > 1.5 {
+			c.Stat("c12.rast.collider.scale_below_1_wide_line", 1)
+		}
+	} else if effScale == 1 {
+		c.Stat("c12.rast.collider.scale_1", 1)
+	} else {
+		c.Stat("c12.rast.collider.scale_above_1", 1)
+	}
+	c.Stat("c12.rast.collider.family_"+family, 1)
+	tag := fmt.Sprintf("family=%s scale=%v ss=%d lw=%v bounds=%s pts=%s", family, scale, ss, lw, bounds, ptsStr)
+	if family == "star" {
+		// the even-odd solid is only meaningful for a closed curve
+		emitCase(c, "c12 same rastcollidersolid "+tag, "corr:c12 same/RasterizeColliderSolid", func() string {
+			return sameImg(r.RasterizeColliderSolid(coll), r.RasterizeSolid(model2d.NewColliderSolid(coll)))
+		})
+		c.Stat("c12.rast.collider_cases", 1)
+	}
 	emitCase(c, "c12 same rastcollider "+tag, "corr:c12 same/RasterizeCollider", func() string {
-		hollow := model2d.NewColliderSolidHollow(coll, 0.5*lw/scale)
+		// the solid RasterizeCollider documents: everything within half a line width (LineWidth is in
+		// pixels, so LineWidth/Scale model units) of the collider
+		hollow := model2d.NewColliderSolidHollow(coll, 0.5*effLw/effScale)
 		return sameImg(r.RasterizeCollider(coll), r.RasterizeSolid(hollow))
 	})
-	c.Stat("c12.rast.collider_cases", 2)
+	c.Stat("c12.rast.collider_cases", 1)
 }
 
 func runRast(c *hlib.Ctx) {
